@@ -258,6 +258,9 @@ pub enum Src {
   Hot(usize),
   /// `create()` whose subscriber handle is stashed and driven by the explorer
   Raw(usize),
+  /// like `Raw`, but the producer emits the item 9 inside the subscription call
+  /// before it keeps its subscriber for later
+  RawEager(usize),
   /// `from_iter(items)` (always completes)
   Iter(Vec<i64>),
   /// `create(|s| script)` emitting a script synchronously at subscription
@@ -320,7 +323,7 @@ impl Pipe {
   /// highest hot/raw input index + 1
   pub fn n_inputs(&self) -> usize {
     match self {
-      Pipe::S(Src::Hot(i)) | Pipe::S(Src::Raw(i)) => i + 1,
+      Pipe::S(Src::Hot(i)) | Pipe::S(Src::Raw(i)) | Pipe::S(Src::RawEager(i)) => i + 1,
       Pipe::S(_) => 0,
       Pipe::O1(Op1::Flat(_, inners), p) => {
         let m = inners
@@ -817,6 +820,16 @@ macro_rules! build_fns {
           let calls = c.src_calls.clone();
           observable::create(move |sub: $Subscriber<_>| {
             calls.fetch_add(1, Ordering::SeqCst);
+            $lock.push(sub);
+          })
+          .box_it()
+        }
+        Src::RawEager(i) => {
+          let $st = cx.$raw[*i].clone();
+          let calls = c.src_calls.clone();
+          observable::create(move |mut sub: $Subscriber<_>| {
+            calls.fetch_add(1, Ordering::SeqCst);
+            sub.next(V::I(9));
             $lock.push(sub);
           })
           .box_it()
